@@ -1063,3 +1063,314 @@ Proof.
   exists t'. rewrite text_ltree, <- Ht, <- text_ltree. split; [exact E1|].
   rewrite E2, doc_items_ltree_of, Hc. reflexivity.
 Qed.
+
+(* ---------------------------------------------------------------- indentation and separation *)
+Lemma str_eqb_refl s : str_eqb s s = true.
+Proof. unfold str_eqb. induction s as [|c r IH]; [reflexivity|]. cbn [list_eqb]. rewrite N.eqb_refl, IH. reflexivity. Qed.
+
+Lemma rebuild_field_indented c name w first conts : field_indented c (rebuild_field c name w first conts) = true.
+Proof.
+  unfold field_indented. rewrite rebuild_field_name. unfold rebuild_field.
+  assert (H : forall ls, forallb (fun ct : str * str => str_eqb (fst ct) (spaces (width c name))) (indent_lines (width c name) ls) = true).
+  { intros ls. unfold indent_lines. induction ls as [|t r IH]; [reflexivity|]. cbn [map forallb fst]. rewrite str_eqb_refl, IH. reflexivity. }
+  destruct (fits c name w first && is_nil conts); [reflexivity|].
+  destruct (value_lines first conts); [reflexivity|].
+  destruct (c_iel c && negb (is_nil conts) && negb (starts_with_hash l)); cbn [f_cont]; apply H.
+Qed.
+
+Lemma a_ws_field_indented c fmt f : field_indented c (a_ws_field c fmt f) = true.
+Proof.
+  unfold a_ws_field. destruct fmt as [g|]; [|apply rebuild_field_indented].
+  destruct (parse_value (g (f_name f) (value_text (field_ws0 f) (f_first f) (map snd (f_cont f))))) as [[w first] conts].
+  apply rebuild_field_indented.
+Qed.
+
+Lemma items_indented_ungroup c gs tr :
+  (forall g, In g gs -> field_indented c (snd g) = true) -> items_indented c (ungroup gs tr) = true.
+Proof.
+  intros H. unfold items_indented, ungroup. rewrite forallb_app. apply andb_true_iff. split.
+  - induction gs as [|g r IH]; [reflexivity|]. cbn [flat_map]. rewrite !forallb_app.
+    rewrite IH by (intros y Hy; apply H; right; exact Hy). cbn [forallb]. rewrite (H g (or_introl eq_refl)).
+    rewrite !andb_true_r. induction (fst g) as [|x l IHl]; [reflexivity|exact IHl].
+  - induction tr as [|x l IHl]; [reflexivity|exact IHl].
+Qed.
+
+Theorem a_ws_items_indented c ecmp fmt its : items_indented c (a_ws_items c ecmp fmt its) = true.
+Proof.
+  unfold a_ws_items. destruct (group_items its []) as [gs tr]. apply items_indented_ungroup.
+  intros g Hg. apply in_map_iff in Hg. destruct Hg as (g0 & <- & _). apply a_ws_field_indented.
+Qed.
+
+Lemma items_indented_terminate_last c its : items_indented c (terminate_last its) = items_indented c its.
+Proof.
+  unfold items_indented. induction its as [|it r IH]; [reflexivity|]. destruct r as [|it2 r2].
+  - destruct it; reflexivity.
+  - assert (E : terminate_last (it :: it2 :: r2) = it :: terminate_last (it2 :: r2)) by (destruct it; reflexivity).
+    rewrite E. cbn [forallb] in *. rewrite IH. reflexivity.
+Qed.
+
+Lemma doc_indented_terminate_doc c d : doc_indented c (terminate_doc d) = doc_indented c d.
+Proof.
+  unfold doc_indented. induction d as [|b r IH]; [reflexivity|]. destruct r as [|b2 r2].
+  - destruct b; try reflexivity. cbn [terminate_doc forallb]. rewrite items_indented_terminate_last. reflexivity.
+  - assert (E : terminate_doc (b :: b2 :: r2) = b :: terminate_doc (b2 :: r2)) by (destruct b; reflexivity).
+    rewrite E. cbn [forallb] in *. rewrite IH. reflexivity.
+Qed.
+
+Lemma doc_indented_comments c cs : doc_indented c (map comment_block cs) = true.
+Proof. induction cs as [|x l0 IHl]; [reflexivity|exact IHl]. Qed.
+Lemma doc_indented_app c a b : doc_indented c (a ++ b) = doc_indented c a && doc_indented c b.
+Proof. apply forallb_app. Qed.
+
+Lemma doc_indented_emit c G : forall first, (forall g, In g G -> items_indented c (snd g) = true) ->
+  doc_indented c (emit_blocks first G) = true.
+Proof.
+  induction G as [|g r IH]; intros first H; [reflexivity|]. rewrite emit_blocks_cons, !doc_indented_app, doc_indented_comments.
+  rewrite IH by (intros y Hy; apply H; right; exact Hy).
+  unfold doc_indented at 2. cbn [forallb]. rewrite (H g (or_introl eq_refl)). destruct first; reflexivity.
+Qed.
+
+Theorem a_ws_doc_indented c pcmp pf l : (forall its, items_indented c (pf its) = true) ->
+  doc_indented c (a_ws_doc pcmp pf l) = true.
+Proof.
+  intros H. unfold a_ws_doc. destruct (group_blocks l []) as [gs tr]. rewrite doc_indented_terminate_doc.
+  rewrite doc_indented_app, doc_indented_comments, andb_true_r. apply doc_indented_emit.
+  intros g Hg. apply in_map_iff in Hg. destruct Hg as (g0 & <- & _). cbn [snd].
+  rewrite items_indented_terminate_last. apply H.
+Qed.
+
+Lemma single_blanks_terminate_doc d : forall st, single_blanks st (terminate_doc d) = single_blanks st d.
+Proof.
+  induction d as [|b r IH]; intros st; [reflexivity|]. destruct r as [|b2 r2].
+  - destruct b; reflexivity.
+  - assert (E : terminate_doc (b :: b2 :: r2) = b :: terminate_doc (b2 :: r2)) by (destruct b; reflexivity).
+    rewrite E. destruct b; cbn [single_blanks]; destruct st; try reflexivity; apply IH.
+Qed.
+
+Definition after_comments (st : sep_state) : sep_state :=
+  match st with SepStart => SepStart | SepAfterBlank => SepAfterBlank | _ => SepTrailing end.
+Lemma single_blanks_comments cs : forall st X, cs <> [] ->
+  single_blanks st (map comment_block cs ++ X) = single_blanks (after_comments st) X.
+Proof.
+  induction cs as [|c r IH]; intros st X Hne; [congruence|]. cbn [map app comment_block single_blanks].
+  destruct r as [|c2 r2].
+  - destruct st; reflexivity.
+  - destruct st; cbn [after_comments]; rewrite IH by discriminate; reflexivity.
+Qed.
+Lemma single_blanks_comments' cs st X : (st = SepStart \/ st = SepAfterBlank) ->
+  single_blanks st (map comment_block cs ++ X) = single_blanks st X.
+Proof.
+  intros Hst. destruct cs as [|c r]; [reflexivity|]. rewrite single_blanks_comments by discriminate.
+  destruct Hst as [-> | ->]; reflexivity.
+Qed.
+
+Lemma single_blanks_emit G tr : forall first : bool,
+  single_blanks (if first then SepStart else SepAfterPara) (emit_blocks first G ++ map comment_block tr) = true.
+Proof.
+  induction G as [|g r IH]; intros first.
+  - cbn [emit_blocks app]. destruct tr as [|c0 tr0]; [destruct first; reflexivity|].
+    rewrite <- (app_nil_r (map comment_block (c0 :: tr0))), single_blanks_comments by discriminate.
+    destruct first; reflexivity.
+  - cbn [emit_blocks]. rewrite <- !app_assoc. destruct first; cbn [app single_blanks].
+    + rewrite single_blanks_comments' by (left; reflexivity). cbn [app single_blanks]. apply (IH false).
+    + rewrite single_blanks_comments' by (right; reflexivity). cbn [app single_blanks]. apply (IH false).
+Qed.
+
+Theorem a_ws_doc_single_blanks pcmp pf l : single_blanks SepStart (a_ws_doc pcmp pf l) = true.
+Proof.
+  unfold a_ws_doc. destruct (group_blocks l []) as [gs tr]. rewrite single_blanks_terminate_doc.
+  apply (single_blanks_emit _ tr true).
+Qed.
+
+(* ---------------------------------------------------------------- idempotence *)
+Definition triple_ok (w first : str) (conts : list str) : Prop :=
+  forallb nonempty_line conts = true /\ (first = [] -> conts = [] -> w = []).
+
+Theorem rebuild_idem c name w first conts : triple_ok w first conts ->
+  rebuild_field c name (field_ws0 (rebuild_field c name w first conts))
+                       (f_first (rebuild_field c name w first conts))
+                       (map snd (f_cont (rebuild_field c name w first conts)))
+  = rebuild_field c name w first conts.
+Proof.
+  intros [Hne Hw]. remember (rebuild_field c name w first conts) as F eqn:EF. unfold rebuild_field in EF.
+  destruct (fits c name w first && is_nil conts) eqn:Efit.
+  - pose proof Efit as Efit'. apply andb_true_iff in Efit'. destruct Efit' as [_ En]. destruct conts; [|discriminate].
+    subst F. cbn [f_first f_cont map]. destruct first as [|b first'].
+    + rewrite (Hw eq_refl eq_refl) in *. unfold field_ws0. cbn [f_first f_cont f_ws]. unfold rebuild_field. rewrite Efit. reflexivity.
+    + unfold field_ws0. cbn [f_first f_cont f_ws]. unfold rebuild_field. rewrite Efit. reflexivity.
+  - destruct (value_lines first conts) as [|l1 rest] eqn:El.
+    + assert (first = [] /\ conts = []) as [-> ->] by (unfold value_lines in El; destruct first; [split; [reflexivity|exact El]|discriminate]).
+      subst F. rewrite (Hw eq_refl eq_refl) in *. unfold field_ws0. cbn [f_first f_cont f_ws map]. unfold rebuild_field. rewrite Efit. reflexivity.
+    + pose proof (value_lines_head_nonempty first conts l1 rest Hne El) as Hl1.
+      destruct (c_iel c && negb (is_nil conts) && negb (starts_with_hash l1)) eqn:Ed; subst F.
+      * cbn [f_first f_cont]. rewrite map_snd_indent. unfold field_ws0. cbn [f_first f_cont f_ws indent_lines map].
+        unfold rebuild_field. cbn [is_nil]. rewrite andb_false_r. cbn [value_lines negb].
+        apply andb_true_iff in Ed. destruct Ed as [Ed Eh]. apply andb_true_iff in Ed. destruct Ed as [Ei _].
+        rewrite Ei, Eh. reflexivity.
+      * cbn [f_first f_cont]. rewrite map_snd_indent.
+        replace (field_ws0 (mk_field name [32%N] l1 (indent_lines (width c name) rest) true)) with [32%N]
+          by (unfold field_ws0; cbn [f_first f_cont f_ws]; destruct l1; [contradiction|reflexivity]).
+        unfold rebuild_field. destruct (fits c name [32%N] l1 && is_nil rest) eqn:Ef2.
+        -- apply andb_true_iff in Ef2. destruct Ef2 as [_ En]. destruct rest; [reflexivity|discriminate].
+        -- assert (Ev : value_lines l1 rest = l1 :: rest) by (unfold value_lines; destruct l1; [contradiction|reflexivity]).
+           rewrite Ev. destruct rest as [|r1 rest'].
+           ++ cbn [is_nil negb]. rewrite andb_false_r. reflexivity.
+           ++ assert (Hc : is_nil conts = false).
+              { unfold value_lines in El. destruct first; [subst conts; reflexivity|]. injection El as _ ->. reflexivity. }
+              rewrite Hc in Ed. cbn [is_nil negb] in *. rewrite Ed. reflexivity.
+Qed.
+
+Theorem a_ws_field_idem_nofmt c f : conts_nonempty f = true ->
+  a_ws_field c None (a_ws_field c None f) = a_ws_field c None f.
+Proof.
+  intros Hne. unfold a_ws_field. rewrite rebuild_field_name. apply rebuild_idem. split; [apply conts_nonempty_map; exact Hne|].
+  unfold field_ws0. intros -> E. destruct (f_cont f); [reflexivity|discriminate].
+Qed.
+
+(* ---- items: the result is a fixed point ---- *)
+Lemma group_items_comments cs : forall X cur, group_items (map comment_item cs ++ X) cur = group_items X (cur ++ cs).
+Proof.
+  induction cs as [|c r IH]; intros X cur; [rewrite app_nil_r; reflexivity|].
+  cbn [map app comment_item group_items]. rewrite IH, <- app_assoc. destruct c; reflexivity.
+Qed.
+
+Lemma group_ungroup gs tr : forall cur,
+  group_items (ungroup gs tr) cur =
+  match gs with [] => ([], cur ++ tr) | g :: r => ((cur ++ fst g, snd g) :: r, tr) end.
+Proof.
+  induction gs as [|g r IH]; intros cur.
+  - unfold ungroup. cbn [flat_map app]. rewrite <- (app_nil_r (map comment_item tr)), group_items_comments. reflexivity.
+  - assert (E : ungroup (g :: r) tr = map comment_item (fst g) ++ IField (snd g) :: ungroup r tr).
+    { unfold ungroup. cbn [flat_map]. rewrite <- !app_assoc. reflexivity. }
+    rewrite E, group_items_comments. cbn [group_items]. rewrite IH.
+    destruct r as [|g2 r2]; [reflexivity|]. destruct g2; reflexivity.
+Qed.
+
+Lemma group_ungroup_nil gs tr : group_items (ungroup gs tr) [] = (gs, tr).
+Proof. rewrite group_ungroup. destruct gs as [|g r]; [reflexivity|]. destruct g; reflexivity. Qed.
+
+Lemma sort_opt_sorted {A} (cmp : option (A -> A -> comparison)) l :
+  match cmp with Some c => lsorted c l | None => True end -> sort_opt cmp l = l.
+Proof. destruct cmp; [apply sort_by_sorted|reflexivity]. Qed.
+
+Lemma lsorted_map {A B} (cmpA : A -> A -> comparison) (cmpB : B -> B -> comparison) (h : A -> B) l :
+  (forall a b, cmpB (h a) (h b) = cmpA a b) -> lsorted cmpA l -> lsorted cmpB (map h l).
+Proof.
+  intros H. induction l as [|x r IH]; [trivial|]. cbn [lsorted map]. intros [Hx Hr]. split; [|apply IH; exact Hr].
+  destruct r as [|y r']; [exact I|]. cbn [map]. unfold le_cmp, gtb in *. rewrite H. exact Hx.
+Qed.
+
+Definition canon_groups (c : wcfg) (ecmp : option pair_cmp) (fmt : option (str -> str -> str))
+                        (gs : list (list comment * field)) : Prop :=
+  match option_map on_field ecmp with Some e => lsorted e gs | None => True end /\
+  forall g, In g gs -> a_ws_field c fmt (snd g) = snd g /\ f_nl (snd g) = true.
+
+Lemma a_ws_items_ungroup_canon c ecmp fmt gs tr : canon_groups c ecmp fmt gs ->
+  a_ws_items c ecmp fmt (ungroup gs tr) = ungroup gs tr.
+Proof.
+  intros [Hs Hf]. unfold a_ws_items. rewrite group_ungroup_nil, (sort_opt_sorted _ _ Hs). f_equal.
+  rewrite <- (map_id gs) at 2. apply map_ext_in. intros g Hg. destruct (Hf g Hg) as [E _]. rewrite E. destruct g; reflexivity.
+Qed.
+
+Lemma rebuild_field_nl c name w first conts : f_nl (rebuild_field c name w first conts) = true.
+Proof.
+  unfold rebuild_field. destruct (fits c name w first && is_nil conts); [reflexivity|].
+  destruct (value_lines first conts); [reflexivity|].
+  destruct (c_iel c && negb (is_nil conts) && negb (starts_with_hash l)); reflexivity.
+Qed.
+Lemma a_ws_field_nl c fmt f : f_nl (a_ws_field c fmt f) = true.
+Proof.
+  unfold a_ws_field. destruct fmt as [g|]; [|apply rebuild_field_nl].
+  destruct (parse_value (g (f_name f) (value_text (field_ws0 f) (f_first f) (map snd (f_cont f))))) as [[w first] conts].
+  apply rebuild_field_nl.
+Qed.
+
+Definition pair_cmp_consistent (ecmp : option pair_cmp) : Prop :=
+  match ecmp with Some e => cmp_consistent e | None => True end.
+
+(* what makes a second application of the field step a no-op, and the comparator see the same thing *)
+Definition field_stable (c : wcfg) (fmt : option (str -> str -> str)) (f : field) : Prop :=
+  a_ws_field c fmt (a_ws_field c fmt f) = a_ws_field c fmt f /\
+  field_pair (a_ws_field c fmt f) = a_pair fmt f.
+
+Lemma a_ws_items_is_canon c ecmp fmt its :
+  pair_cmp_consistent ecmp ->
+  (forall f, In (IField f) its -> field_stable c fmt f) ->
+  (forall f g, In (IField f) its -> In (IField g) its ->
+     match ecmp with Some e => e (a_pair fmt f) (a_pair fmt g) = e (field_pair f) (field_pair g) | None => True end) ->
+  exists gs tr, a_ws_items c ecmp fmt its = ungroup gs tr /\ canon_groups c ecmp fmt gs.
+Proof.
+  intros Hc Hst Hinv. unfold a_ws_items. pose proof (group_items_In its []) as HIn.
+  destruct (group_items its []) as [gs0 tr]. cbn [fst] in HIn.
+  exists (map (fun g => (fst g, a_ws_field c fmt (snd g))) (sort_opt (option_map on_field ecmp) gs0)), tr.
+  split; [reflexivity|]. split.
+  - destruct ecmp as [e|]; cbn [option_map sort_opt]; [|exact I].
+    assert (Hs : lsorted (on_field e) (sort_by (on_field e) gs0)).
+    { apply sort_by_lsorted. intros a b H. unfold on_field in *. apply Hc. exact H. }
+    revert Hs. assert (Hsub : forall g, In g (sort_by (on_field e) gs0) -> In g gs0)
+      by (intros g Hg; apply (sort_opt_In (Some (on_field e)) _ _ Hg)).
+    revert Hsub. generalize (sort_by (on_field e) gs0) as l. induction l as [|x r IH]; intros Hsub Hs; [exact I|].
+    cbn [lsorted map] in *. destruct Hs as [Hx Hr]. split; [|apply IH; [intros g Hg; apply Hsub; right; exact Hg|exact Hr]].
+    destruct r as [|y r']; [exact I|]. cbn [map]. unfold le_cmp, gtb, on_field in *. cbn [snd].
+    destruct (Hst (snd x) (HIn x (Hsub x (or_introl eq_refl)))) as [_ E1].
+    destruct (Hst (snd y) (HIn y (Hsub y (or_intror (or_introl eq_refl))))) as [_ E2].
+    rewrite E1, E2. cbn [pair_cmp_consistent] in *.
+    rewrite (Hinv (snd x) (snd y) (HIn x (Hsub x (or_introl eq_refl))) (HIn y (Hsub y (or_intror (or_introl eq_refl))))).
+    exact Hx.
+  - intros g' Hg'. apply in_map_iff in Hg'. destruct Hg' as (g & <- & Hin). cbn [snd].
+    apply sort_opt_In in Hin. split; [apply (Hst (snd g) (HIn g Hin))|apply a_ws_field_nl].
+Qed.
+
+Theorem a_ws_items_idem c ecmp fmt its :
+  pair_cmp_consistent ecmp ->
+  (forall f, In (IField f) its -> field_stable c fmt f) ->
+  (forall f g, In (IField f) its -> In (IField g) its ->
+     match ecmp with Some e => e (a_pair fmt f) (a_pair fmt g) = e (field_pair f) (field_pair g) | None => True end) ->
+  a_ws_items c ecmp fmt (a_ws_items c ecmp fmt its) = a_ws_items c ecmp fmt its.
+Proof.
+  intros Hc Hst Hinv. destruct (a_ws_items_is_canon c ecmp fmt its Hc Hst Hinv) as (gs & tr & E & Hcan).
+  rewrite E. apply a_ws_items_ungroup_canon. exact Hcan.
+Qed.
+
+(* terminating the last line of a canonical paragraph *)
+Lemma terminate_last_app a b : b <> [] -> terminate_last (a ++ b) = a ++ terminate_last b.
+Proof.
+  intros Hb. induction a as [|x r IH]; [reflexivity|]. cbn [app].
+  destruct (r ++ b) as [|y z] eqn:E; [destruct r; [cbn [app] in E; congruence|discriminate]|]. rewrite <- IH. destruct x; reflexivity.
+Qed.
+
+Lemma terminate_last_ungroup gs tr : (forall g, In g gs -> f_nl (snd g) = true) ->
+  terminate_last (ungroup gs tr) = ungroup gs (term_comments tr).
+Proof.
+  intros H. unfold ungroup. destruct tr as [|c0 tr0].
+  - cbn [map term_comments]. rewrite !app_nil_r.
+    destruct gs as [|g0 gs0]; [reflexivity|]. assert (Hne : g0 :: gs0 <> []) by discriminate.
+    destruct (exists_last Hne) as (gs' & g & E). rewrite E in *. rewrite flat_map_app. cbn [flat_map]. rewrite app_nil_r.
+    rewrite !app_assoc, terminate_last_app by discriminate. f_equal.
+    assert (Hn : f_nl (snd g) = true) by (apply H; apply in_or_app; right; left; reflexivity).
+    cbn [terminate_last]. destruct (snd g) as [n w f cs nl]. cbn [f_nl] in Hn. subst nl. reflexivity.
+  - rewrite terminate_last_app by discriminate. rewrite <- map_term_comments. reflexivity.
+Qed.
+
+Lemma term_comments_idem cs : term_comments (term_comments cs) = term_comments cs.
+Proof.
+  induction cs as [|c r IH]; [reflexivity|]. destruct r as [|c2 r2]; [reflexivity|].
+  change (term_comments (c :: c2 :: r2)) with (c :: term_comments (c2 :: r2)).
+  destruct (term_comments (c2 :: r2)) as [|x y] eqn:E; [destruct r2; discriminate|].
+  change (term_comments (c :: x :: y)) with (c :: term_comments (x :: y)). rewrite IH. reflexivity.
+Qed.
+
+(* the step Deb822::wrap_and_sort applies to a paragraph is idempotent *)
+Theorem a_ws_items_term_idem c ecmp fmt its :
+  pair_cmp_consistent ecmp ->
+  (forall f, In (IField f) its -> field_stable c fmt f) ->
+  (forall f g, In (IField f) its -> In (IField g) its ->
+     match ecmp with Some e => e (a_pair fmt f) (a_pair fmt g) = e (field_pair f) (field_pair g) | None => True end) ->
+  terminate_last (a_ws_items c ecmp fmt (terminate_last (a_ws_items c ecmp fmt its)))
+  = terminate_last (a_ws_items c ecmp fmt its).
+Proof.
+  intros Hc Hst Hinv. destruct (a_ws_items_is_canon c ecmp fmt its Hc Hst Hinv) as (gs & tr & E & Hcan).
+  rewrite E. assert (Hnl : forall g, In g gs -> f_nl (snd g) = true) by (intros g Hg; apply (proj2 Hcan g Hg)).
+  rewrite (terminate_last_ungroup _ _ Hnl), (a_ws_items_ungroup_canon _ _ _ _ _ Hcan), (terminate_last_ungroup _ _ Hnl), term_comments_idem.
+  reflexivity.
+Qed.
